@@ -490,4 +490,91 @@ def insertSelect (decls : List ColDecl) (src : List (List IVal)) : List (List IV
 def specInsertSelect (decls : List ColDecl) (src : List (List IVal)) : List (List IVal) :=
   if src.all (fun r => (specRow decls r).isOk) then specTable decls src else []
 
+/-! ### Multi-row `INSERT … VALUES (r1), (r2), …` (one statement)
+
+The VALUES node types every column as the UNION of the literal types of all rows
+(`DataType::union`); `ValuesExecutor` casts every literal to that type (`column_types` = the node's
+type), then `InsertExecutor` casts to the declared column types. One failure fails the statement. -/
+
+/-- Literal types of the modelled INSERT values, in `DataType`'s rank order. -/
+inductive UTy where
+  | null | bool | int32 | int64 | dec | str
+  deriving Repr, DecidableEq
+
+def UTy.rank : UTy → Nat
+  | .null => 0 | .bool => 1 | .int32 => 2 | .int64 => 3 | .dec => 4 | .str => 5
+
+/-- `DataType::union` on these types: the one of higher rank (every pair is compatible). -/
+def UTy.union (a b : UTy) : UTy := if a.rank ≤ b.rank then b else a
+
+/-- The type the parser / binder gives the literal (an integer literal is INT if it fits, else BIGINT). -/
+def IVal.uty : IVal → UTy
+  | .null => .null
+  | .bool _ => .bool
+  | .int _ x => if IW.w32.fits x then .int32 else .int64
+  | .str _ => .str
+  | .dec _ => .dec
+
+/-- `ValuesExecutor`: the literal cast UP to the column's union type. -/
+def castU (u : UTy) (v : IVal) : KOut IVal :=
+  match v, u with
+  | .null, _ => .ok .null
+  | .bool b, .bool => .ok (.bool b)
+  | .bool b, .int32 => .ok (.int .w32 (if b then 1 else 0))
+  | .bool b, .int64 => .ok (.int .w64 (if b then 1 else 0))
+  | .bool b, .dec => .ok (.dec (if b then 10 else 0))
+  | .bool b, .str => .ok (.str (if b then "true" else "false"))
+  | .int _ x, .int32 => .ok (.int .w32 x)
+  | .int _ x, .int64 => .ok (.int .w64 x)
+  | .int _ x, .dec => .ok (.dec (10 * x))
+  | .int _ x, .str => .ok (.str (toString x))
+  | .dec d, .dec => .ok (.dec d)
+  | .str s, .str => .ok (.str s)
+  | _, _ => .err     -- never a union of the column (decimal → string: Display not modelled, not generated)
+
+def unionRowU : List UTy → List UTy → List UTy
+  | a :: as, b :: bs => a.union b :: unionRowU as bs
+  | _, _ => []
+
+/-- Column types of the VALUES node. -/
+def unionCols : List (List IVal) → List UTy
+  | [] => []
+  | r :: rs => rs.foldl (fun acc r' => unionRowU acc (r'.map IVal.uty)) (r.map IVal.uty)
+
+def castRowU : List UTy → List IVal → KOut (List IVal)
+  | u :: us, v :: vs =>
+    match castU u v with
+    | .ok x => match castRowU us vs with
+      | .ok r => .ok (x :: r)
+      | .err => .err
+      | .panic => .panic
+    | .err => .err
+    | .panic => .panic
+  | [], [] => .ok []
+  | _, _ => .panic
+
+/-- One multi-row INSERT statement: every literal through the column's union type, then to the
+declared type; all rows or none. -/
+def insertValues (decls : List ColDecl) (rows : List (List IVal)) : List (List IVal) :=
+  let us := unionCols rows
+  let conv := rows.map fun r => match castRowU us r with | .ok r' => castRow decls r' | x => x
+  if conv.all (fun c => c.isOk) then conv.filterMap (fun c => match c with | .ok r => some r | _ => none) else []
+
+/-- The property's side: every literal converted DIRECTLY to the declared type (lossless or fail),
+all rows or none; a statement that fails as a whole is always allowed. -/
+def specInsertValues (decls : List ColDecl) (rows : List (List IVal)) : List (List IVal) :=
+  if (insertValues decls rows).isEmpty then [] else specInsertSelect decls rows
+
+/-- Where the detour through the union type changes the stored value (`true` next to an integer literal
+becomes 1 and is stored as '1' in a STRING column, not 'true'). -/
+def detourTags (decls : List ColDecl) (rows : List (List IVal)) : List String :=
+  let us := unionCols rows
+  (rows.map fun r =>
+    ((decls.zip (us.zip r)).filterMap fun (d, u, v) =>
+      match castU u v with
+      | .ok v' => match castCol d v', castCol d v with
+        | .ok a, .ok b => if a != b then some ("insert:values-union-detour:" ++ v.kind ++ "->" ++ d.ty.kind) else none
+        | _, _ => none
+      | _ => none)).flatten.eraseDups
+
 end RlModel
